@@ -82,7 +82,7 @@ func stream(c *run.Ctx, name string, n int, opt ref.GenOpt, user []*ref.Fun, mut
 
 func fixedCases(c *run.Ctx, cases []*ProgCase, or oracle) {
 	for i, pc := range cases {
-		if !c.Mine(i) {
+		if !c.Mine(i) || pc == nil {
 			continue
 		}
 		pc := pc
